@@ -439,8 +439,10 @@ class Runner
     template <class T, int K>
     static constexpr auto alt_source_tag()
     {
-        if constexpr (!std::is_arithmetic_v<T> || std::is_same_v<T, bool>)
+        if constexpr (!std::is_arithmetic_v<T>)
             return type_tag<void>{};
+        else if constexpr (std::is_same_v<T, bool>)
+            return type_tag<uint8_t>{};  // bool(u) for u in {0, 1, 2, 128, 255}: a byte copy would store an invalid bool
         else if constexpr (std::is_integral_v<T>)
         {
             if constexpr (K == 0)
@@ -508,7 +510,13 @@ class Runner
                     if (!key_fits<U>(k)) return false;
                 std::vector<U> alt;
                 alt.reserve(e.f[J].size() + 1);
-                for (auto k : e.f[J]) alt.push_back(static_cast<U>(k));
+                if constexpr (std::is_same_v<T, bool>)
+                {
+                    static const uint8_t truths[4] = {1, 2, 255, 128};
+                    for (std::size_t j = 0; j < e.f[J].size(); ++j) alt.push_back(e.f[J][j] ? truths[j % 4] : uint8_t{0});
+                }
+                else
+                    for (auto k : e.f[J]) alt.push_back(static_cast<U>(k));
                 auto args = std::tuple<decltype(make_arg<I>(e))...>{make_arg<I>(e)...};
                 v.emplace_back(pick_converting<J, I, K, decltype(args), std::vector<U>>(args, alt)...);
                 st.label(sizeof(U) == sizeof(T) ? "emplace_converting_same_size" : "emplace_converting_other_size");
